@@ -99,10 +99,32 @@ theorem readHunks_ro (b : Nat) (ns : List Nat) (after last : Option Str) :
     refine Prog.AllOps.bind (readHunk_ro b n).attempt (fun r => ?_)
     repeat (first | exact ih _ _ | exact Prog.AllOps.bind (ih _ _) (fun _ => .ret _) | allops_step)
 
+theorem hunkLengths_go_ro (b : Nat) (ds : List Nat) (acc : List (Nat × Bool)) :
+    Prog.AllOps RO (hunkLengths.go b ds acc) := by
+  induction ds generalizing acc with
+  | nil => exact .ret _
+  | cons d ds ih =>
+    unfold hunkLengths.go
+    simp only [Prog.bind_def]
+    refine Prog.AllOps.bind (AllOps.perform rfl) (fun r => ?_)
+    split
+    · exact ih _
+    · exact .fail _
+    · exact .fail _
+
+theorem hunkLengths_ro (b : Nat) : Prog.AllOps RO (hunkLengths b) := by
+  unfold hunkLengths
+  simp only [Prog.bind_def]
+  refine Prog.AllOps.bind (AllOps.perform rfl) (fun r => ?_)
+  split
+  · exact hunkLengths_go_ro _ _ _
+  · exact .fail _
+  · exact .fail _
+
 theorem checkIndexHunks_ro (b : Nat) : Prog.AllOps RO (checkIndexHunks b) := by
   unfold checkIndexHunks
   simp only [Prog.bind_def, Prog.pure_def]
-  refine Prog.AllOps.bind (hunksAvailable_ro b) (fun hs => ?_)
+  refine Prog.AllOps.bind (hunkLengths_ro b) (fun hs => ?_)
   repeat allops_step
 
 theorem readBand_ro (b : Nat) (last : Option Str) : Prog.AllOps RO (readBand b last) := by
